@@ -315,6 +315,44 @@ func cmdCodecCheck(args []string) int {
 			}
 		}
 	}
+	// ---- (c1) keys whose public value (and private value) have leading zero bytes: about one honest
+	// key in 256; the wire form carries integers in minimal form and must still parse to the same key
+	{
+		priv, _ := world.DSAKey("A")
+		P, Q, G := priv.PrivateKey.P, priv.PrivateKey.Q, priv.PrivateKey.G
+		found := 0
+		for xi := int64(2); xi < 200000 && found < 3; xi++ {
+			x := big.NewInt(xi)
+			y := new(big.Int).Exp(G, x, P)
+			if y.BitLen() > P.BitLen()-8 {
+				continue
+			}
+			found++
+			k := &otr3.DSAPrivateKey{}
+			k.PrivateKey.P, k.PrivateKey.Q, k.PrivateKey.G, k.PrivateKey.Y, k.PrivateKey.X = P, Q, G, y, x
+			k.DSAPublicKey.PublicKey = k.PrivateKey.PublicKey
+			ser := k.Serialize()
+			_, ok, parsed := otr3.ParsePrivateKey(ser)
+			pk, _ := parsed.(*otr3.DSAPrivateKey)
+			if !ok || pk == nil || pk.PrivateKey.Y.Cmp(y) != 0 || pk.PrivateKey.X.Cmp(x) != 0 || !bytes.Equal(parsed.Serialize(), ser) {
+				report("dsa", fmt.Sprintf("private key with a short public value (y has %d bits) does not round trip through its wire form", y.BitLen()))
+			}
+			rp := &ref.DSAPub{}
+			rp.P, rp.Q, rp.G, rp.Y = P, Q, G, y
+			pubser := rp.Bytes()
+			if !bytes.Equal(k.PublicKey().Fingerprint(), rp.Fingerprint()) {
+				report("dsa", "public key with a short public value is not serialised in minimal form (fingerprint differs)")
+			}
+			rest, okp, pub := otr3.ParsePublicKey(append(append([]byte{}, pubser...), 7))
+			if !okp || !bytes.Equal(rest, []byte{7}) || !bytes.Equal(pub.Fingerprint(), rp.Fingerprint()) {
+				report("dsa", fmt.Sprintf("public key with a short public value (y has %d bits) is refused or read differently", y.BitLen()))
+			}
+			keys++
+		}
+		if found == 0 {
+			report("dsa", "harness: no key with a short public value found")
+		}
+	}
 	// ---- (c2) DSA signatures: the 40-byte wire form (two 20-byte big-endian integers) must verify
 	// with the independent implementation, also when r or s have leading zero bytes
 	sigs, short := 0, 0
